@@ -95,6 +95,9 @@ class DirectionalLight(Light):
             color = tuple([float(v) for v in colornode.text.split()])
         except (AttributeError, ValueError):
             raise DaeMalformedError('Corrupted color values in light definition')
+        if len(color) == 0:
+            # blank text is no colour either (missing text is rejected above)
+            raise DaeMalformedError('Corrupted color values in light definition')
         return DirectionalLight(node.get('id'), color, xmlnode=node)
 
     def bind(self, matrix):
@@ -165,6 +168,9 @@ class AmbientLight(Light):
         try:
             color = tuple([float(v) for v in colornode.text.split()])
         except (AttributeError, ValueError):
+            raise DaeMalformedError('Corrupted color values in light definition')
+        if len(color) == 0:
+            # blank text is no colour either (missing text is rejected above)
             raise DaeMalformedError('Corrupted color values in light definition')
         return AmbientLight(node.get('id'), color, xmlnode=node)
 
@@ -270,6 +276,9 @@ class PointLight(Light):
         try:
             color = tuple([float(v) for v in colornode.text.split()])
         except (AttributeError, ValueError):
+            raise DaeMalformedError('Corrupted color values in light definition')
+        if len(color) == 0:
+            # blank text is no colour either (missing text is rejected above)
             raise DaeMalformedError('Corrupted color values in light definition')
         constant_att = linear_att = quad_att = zfar = None
         qattnode = pnode.find(collada.tag('quadratic_attenuation'))
@@ -397,6 +406,8 @@ class SpotLight(Light):
         try:
             color = tuple([float(v) for v in colornode.text.split()])
         except (AttributeError, ValueError):
+            raise DaeMalformedError('Corrupted color values in spot light definition')
+        if len(color) == 0:
             raise DaeMalformedError('Corrupted color values in spot light definition')
         constant_att = linear_att = quad_att = falloff_ang = falloff_exp = None
         cattnode = pnode.find(collada.tag('constant_attenuation'))
